@@ -16,8 +16,10 @@ import (
 	"fmt"
 	"io"
 	"os"
+	"os/signal"
 	"path/filepath"
 	"strings"
+	"syscall"
 	"time"
 
 	"verif/ref/tbin"
@@ -26,7 +28,7 @@ import (
 // Step describes how to answer one protocol step.
 type Step struct {
 	// Fault: ok | wrong-name | wrong-version | older-version | no-feature | exception | wrong-envelope-type |
-	// garbage | truncate | one-byte-writes | exit-before-read | exit-after-read | oversized-length[-msb|-max]
+	// garbage | truncate | one-byte-writes | exit-before-read | exit-after-read | oversized-length[-msb|-max] | garbage-flood
 	Fault  string `json:"fault"`
 	Offset int    `json:"offset"` // for truncate: number of bytes of the frame to write
 }
@@ -80,6 +82,7 @@ func main() {
 	if err != nil {
 		os.Exit(97)
 	}
+	signal.Ignore(syscall.SIGPIPE) // a write to a closed stdout returns EPIPE instead of killing the process
 	logEvent("start %d", os.Getpid())
 	var sc Script
 	raw, err := os.ReadFile(filepath.Join(dir, name+".json"))
@@ -165,7 +168,7 @@ func main() {
 			reply.Type = 1
 		}
 		payload := tbin.EncodeStrict(reply, body)
-		if step.Fault == "garbage" {
+		if step.Fault == "garbage" || step.Fault == "garbage-flood" {
 			payload = []byte{0xde, 0xad, 0xbe, 0xef, 0x00, 0x01, 0x02}
 		}
 		frame := make([]byte, 4, 4+len(payload))
@@ -177,6 +180,18 @@ func main() {
 			out.Write(append(append([]byte{}, prefix...), 0x00))
 			logEvent("fault %s at %s", step.Fault, method)
 			exit(3)
+		case "garbage-flood":
+			// a garbage reply, then output without end: the plugin never looks at its
+			// stdin again and stops only when writing to its stdout fails
+			out.Write(frame)
+			logEvent("fault garbage-flood at %s", method)
+			block := make([]byte, 32<<10)
+			for {
+				if _, werr := out.Write(block); werr != nil {
+					logEvent("flood ended: %v", werr)
+					exit(3)
+				}
+			}
 		case "truncate":
 			k := step.Offset
 			if k > len(frame) {
